@@ -327,36 +327,64 @@ def run(tier: str) -> Run:
                                                         'open_before_close_at_witness': order_ok}, key='pairs')
 
     # ---- R5: expansion over source pulses ----------------------------------------------------------------------
-    r5 = run.rule('R5', 'from_disk_chopper: every opening shifted by k/f_pulse for k = 0 .. npulses-1, open and close shifted alike; distance = |axle position|', 2)
+    r5 = run.rule('R5', 'from_disk_chopper: over npulses source pulses every reported (open, close) pair is an opening of the rotating disk '
+                        '(a slit of one turn: base opening + k rotation periods), none is reported twice, none inside the covered time span '
+                        'is missing; distance = |axle position|', 6)
     ffi = repo.func('tof.chopper_cascade', 'Chopper.from_disk_chopper')
-    for sign in (1, -1):
+    from fractions import Fraction as Fr
+    for sign, freq, npulses in ((1, 28, 3), (-1, 28, 3), (1, 14, 2), (-1, 7, 3), (1, 7, 2), (1, Fr(7, 2), 4)):
         T.reset()
         wm = WitnessModel()
         wi = WitnessInterp(repo, wm)
-        kind, ch = construct_chopper(wi, wm, cls, (10, 200), (40, 330), freq=sign * 28, beam=30, phase=400)
+        kind, ch = construct_chopper(wi, wm, cls, (10, 200), (40, 330), freq=sign * freq, beam=30, phase=400)
         fp = sym_scalar(wi, wm, 'fp', Unit.named('Hz'), 14, positive=True)
         k1, to = call(wi, ofi, [], {'pulse_frequency': fp}, bound=ch)
         k2, tc = call(wi, cfi_, [], {'pulse_frequency': fp}, bound=ch)
-        kind, res = call(wi, ffi, [], {'disk_chopper': ch, 'pulse_frequency': fp, 'npulses': 3})
-        inst = 'clockwise' if sign < 0 else 'anticlockwise'
+        kind, res = call(wi, ffi, [], {'disk_chopper': ch, 'pulse_frequency': fp, 'npulses': npulses})
+        inst = f"{'clockwise' if sign < 0 else 'anticlockwise'}, |f| = {freq} Hz against 14 Hz pulses, {npulses} pulses"
         if kind != 'return' or not isinstance(res, SObj) or k1 != 'return' or k2 != 'return':
-            r5.fail(inst, loc(ffi), {'outcome': (kind, res if kind == 'raise' else None)}, key='from-disk-chopper')
+            r5.fail(inst, loc(ffi), {'outcome': (kind, res if kind == 'raise' else None)}, key='from-disk-chopper:outcome')
             continue
         got_o, got_c = items_of(res.attrs.get('time_open')), items_of(res.attrs.get('time_close'))
-        base = [(x.term, y.term) for x, y in zip(items_of(to), items_of(tc), strict=True)]
-        want = [(o + Rat.const(p) / S('fp', True), c + Rat.const(p) / S('fp', True)) for p in range(3) for o, c in base]
-        ok = got_o is not None and got_c is not None and len(got_o) == len(got_c) == len(want)
-        missing = None
-        if ok:
-            left = [(x.term, y.term) for x, y in zip(got_o, got_c, strict=True)]
-            for wo, wc in want:
-                hit = next((i for i, (x, y) in enumerate(left) if isinstance(x, Rat) and x.eq(wo) and y.eq(wc)), None)
-                if hit is None:
-                    ok, missing = False, (T.show(wo), T.show(wc))
+        val = lambda v_: Fr(wm.value(v_))  # noqa: E731  (physical value in SI units at the witness)
+        t_rot = Fr(1) / Fr(freq)  # seconds (the witness frequency in Hz)
+        t_pulse = Fr(1, 14)
+        # the openings of the disk: those the chopper itself reports for one span (rule R4 decides them) and all their
+        # translates by whole rotation periods
+        base = sorted({(val(x), val(y)) for x, y in zip(items_of(to), items_of(tc), strict=True)})
+        per_slit = {}
+        for o, c in base:
+            per_slit.setdefault(((o % t_rot), c - o), (o, c))
+        problems = []
+        if got_o is None or got_c is None or len(got_o) != len(got_c) or not got_o:
+            problems.append('time_open / time_close are not arrays of equal length')
+        else:
+            pairs = [(val(x), val(y)) for x, y in zip(got_o, got_c, strict=True)]
+            for o, c in pairs:
+                if (o % t_rot, c - o) not in per_slit:
+                    problems.append(f'({float(o):.6g} s, {float(c):.6g} s) is not an opening of the disk: no slit is at the beam then '
+                                    f'(rotation period {float(t_rot):.6g} s)')
                     break
-                left.pop(hit)
+            dup = sorted({p_ for p_ in pairs if pairs.count(p_) > 1})
+            if dup:
+                problems.append(f'{len(dup)} opening(s) reported twice, e.g. ({float(dup[0][0]):.6g} s, {float(dup[0][1]):.6g} s)')
+            lo, hi = min(o for o, _ in pairs), max(c for _, c in pairs)
+            have = set(pairs)
+            for (ph, width), (o0, c0) in per_slit.items():
+                k = -(-(lo - o0) // t_rot)  # first turn whose opening starts inside the covered span
+                while o0 + k * t_rot + width <= hi:
+                    if (o0 + k * t_rot, o0 + k * t_rot + width) not in have:
+                        problems.append(f'the opening at {float(o0 + k * t_rot):.6g} s lies inside the covered span and is not reported')
+                        break
+                    k += 1
         dist = res.attrs.get('distance')
         dist_ok = isinstance(dist, SVar) and isinstance(dist.term, Rat) and dist.term.eq(T.norm(T.Vec.sym('axle_position')))
-        r5.check(ok and dist_ok, inst, loc(ffi), {'windows_reported': len(got_o) if got_o is not None else None, 'windows_expected': len(want),
-                                                   'first_missing_pair': missing, 'distance_is_norm_of_axle_position': dist_ok}, key='from-disk-chopper')
+        if not dist_ok:
+            problems.append('distance is not the norm of the axle position')
+        kinds = sorted({('false-opening' if 'not an opening' in p_ else 'duplicate' if 'twice' in p_ else 'missing' if 'not reported' in p_ else 'other') for p_ in problems})
+        if not problems:
+            r5.ok(inst, {'windows_reported': len(got_o)})
+        for kd in kinds:
+            r5.fail(inst + f' [{kd}]', loc(ffi), {'problems': [p_ for p_ in problems][:3], 'windows_reported': len(got_o) if got_o else None},
+                    key=f'from-disk-chopper:{kd}:{"slower" if Fr(freq) < 14 else "faster-or-equal"}')
     return run
